@@ -462,6 +462,18 @@ fn semantic_cases(lay: &Layout) -> Vec<DiagCase> {
             out.push(DiagCase { site: format!("semantic / {}", class), text, tok_off: None, sem_lines: sem, what: format!("{:?} inserted as canonical line {}", line, pos + 1), must_be_at_token: false });
         }
     }
+    // the offending statement comes out of a macro: the use line is the one to cite
+    {
+        let mbase: Vec<&str> = vec!["bv: db 1", "macro goto(l) -> jmp l <-", "macro outer(l) -> inc ax goto(l) <-", "macro setb(v) -> mov al, v <-", "start:", "inc cx", "again:", "inc dx", "stc"];
+        for (class, line) in [("undefined label", "goto(nowhere)"), ("undefined label", "outer(nowhere)"), ("constant out of range", "setb(300)"), ("undefined label", "goto(again) goto(nowhere)")] {
+            for pos in [5usize, 7, mbase.len()] {
+                let mut lines: Vec<String> = mbase.iter().map(|s| s.to_string()).collect();
+                lines.insert(pos, line.to_string());
+                let (text, map) = lay_out(&lines, lay);
+                out.push(DiagCase { site: format!("semantic in macro / {}", class), text, tok_off: None, sem_lines: vec![map[pos + 1]], what: format!("{:?} inserted as canonical line {}", line, pos + 1), must_be_at_token: false });
+            }
+        }
+    }
     // data-side errors at first / last data line
     for (class, line) in [("constant out of range", "db 256"), ("constant out of range", "dw [70000]"), ("duplicate label", "bv: db 9")] {
         for pos in [0usize, 2] {
